@@ -111,6 +111,7 @@ std::pair<int, int>& retpr(int id, int snap, std::pair<int, int>& target, const 
 const int& retcref(int id, int snap, const int& target, const void* a1);
 std::runtime_error thr_std(int id, int snap);
 sim_error& thr_var(int id, int snap, sim_error& e);
+const char* thr_cstr(int id, int snap);
 int thr_int(int id, int snap);
 
 inline int val(int x) { return x; }
